@@ -289,3 +289,86 @@ def val_roundtrip():
         if trace != [('terminal', 'print', '-1 \r\n')]:
             return 0
     return 1
+
+
+# ------------------------------------------------------------------ floats
+# SINGLE / DOUBLE are outside the for-all-values claim (no SMT theory of
+# shortest decimal rendering; CrossHair realises floats).  This is a NATIVE
+# ENUMERATION over a boundary table: plain and exponent forms, exponents
+# ending in 0, values at the precision limits, both signs.
+FLOAT_DOUBLES = [
+    0.1, 1.5, 2.25, 1e-5, 1.5e-7, 123456.7, 1234567.0, 16777217.0,
+    4294967296.0, 99999999999.0, 1e15, 1e16, 1.5e16, 1.5e20, 2.0 ** 67,
+    1e100, 1.5e-300, 1.25e-10, 2.5e-20, 1.7976931348623157e308,
+    2.2250738585072014e-308, 0.30000000000000004, 1e22, 3.5e30, 1.25e200,
+    123456789012345.6, 1e-4, 9.999e-5,
+]
+FLOAT_SINGLES = [
+    0.1, 1.5, 2.25, 123456.7, 1234567.0, 16777216.0, 1.5e10, 1.5e20, 1e30,
+    3.4028235e38, 1.17549435e-38, 1e-5, 2.5e-10, 1e-20, 0.3, 1e10,
+]
+
+
+def _single(v):
+    import struct
+    return struct.unpack('>f', struct.pack('>f', v))[0]
+
+
+def float_roundtrip():
+    """For each table value x (and -x): PRINT x and STR$(x) show the same
+    digits; x and -x the same digits; VAL(STR$(x)) = x; READ and INPUT of the
+    shown text into a variable of the same type give x back."""
+    from vlib.symqvm import run_program
+    from qvm.cpu import QvmCpu
+    for tchar, ctype, table in (('#', CellType.DOUBLE, FLOAT_DOUBLES),
+                                ('!', CellType.SINGLE, FLOAT_SINGLES)):
+        for x0 in table:
+            for x in (x0, -x0):
+                if tchar == '!':
+                    x = _single(x)
+                text = format_number(x, ctype)
+                # sign-or-blank, same digits for x and -x
+                other = format_number(-x, ctype)
+                if text[1:] != other[1:] or text[0] not in ' -' or \
+                        (text[0] == '-') != (x < 0):
+                    print('sign/digits:', repr(text), repr(other))
+                    return 0
+                # STR$ / PRINT / VAL through a real program that gets the
+                # value through DATA (no literal syntax involved)
+                item = ob_units._strip(text)
+                src = ('DATA %s\nREAD x%s\nPRINT x%s\nPRINT STR$(x%s)\n'
+                       'y%s = VAL(STR$(x%s))\nPRINT (y%s = x%s)\n'
+                       % (item, tchar, tchar, tchar, tchar, tchar, tchar,
+                          tchar))
+                trace, out, m = run_program(src, 0, False, 400)
+                want = [('terminal', 'print', text + ' \r\n'),
+                        ('terminal', 'print', text + '\r\n'),
+                        ('terminal', 'print', '-1 \r\n')]
+                if trace != want:
+                    print('program for %r (%s): %r, expected %r'
+                          % (x, tchar, trace, want))
+                    return 0
+                # READ gives x back exactly
+                cpu = QvmCpu(_Mod([[item]]))
+                dev = DataDevice(QVM_DEVICES['data']['id'], cpu, None)
+                cpu.push(CellType.INTEGER, 3 if tchar == '!' else 4)
+                try:
+                    dev._exec_read()
+                except Exception as e:  # noqa
+                    print('READ of %r raised %r' % (item, e))
+                    return 0
+                cell = cpu.stack[-1]
+                if cell.type != ctype or cell.value != x:
+                    print('READ of %r gave %r, expected %r' % (item, cell, x))
+                    return 0
+                # INPUT of the text as typed
+                res, cpu2, impl = ob_units.run_input(tchar, '', True, False,
+                                                     [text, '0'])
+                if res != ('ok',) or len(impl.trace) != 3:
+                    print('INPUT of %r not accepted: %r' % (text, res))
+                    return 0
+                got = cpu2.stack[-1]
+                if got.type != ctype or got.value != x:
+                    print('INPUT of %r gave %r, expected %r' % (text, got, x))
+                    return 0
+    return 1
